@@ -948,6 +948,333 @@ def slow_probe(ctx, shim, model):
                     "default through the hook and through shape(); must finish in < 10 s and agree with the model")
 
 
+
+# ------------------------------------------------------------------------------------------------
+# shape() on fonts that carry the morx table NEXT TO other layout tables ("table environments").
+# The glyph string after AAT substitution must be the morx result with the deleted-glyph records (0xFFFF) purged,
+# whoever positions afterwards (GPOS / kerx / kern / nothing) and whether or not there is a GSUB / GDEF.
+
+DELETED = 0xFFFF
+
+
+def kerx_table(pairs):
+    """kerx version 2 with one format 0 subtable (horizontal, no cross-stream)"""
+    pairs = sorted({(l, r): v for l, r, v in pairs}.items())
+    body = U32(len(pairs), 0, 0, 0) + b"".join(U16(l, r) + struct.pack(">h", v) for (l, r), v in pairs)
+    return U16(2, 0) + U32(1) + U32(12 + len(body)) + bytes([0, 0, 0, 0]) + U32(0) + body
+
+
+def rand_env(r, base=False):
+    """which tables accompany morx: gsub 0 none / 1 no features / 2 one single substitution under `ccmp`;
+    gpos 0 none / 1 no features / 2 pair kerning under `kern` / 3 single adjustment under `mark`; kerx, kern, gdef 0 / 1"""
+    if base:
+        return {"gsub": 0, "gpos": 0, "kerx": 0, "kern": 0, "gdef": 0, "gsub_map": {}}
+    e = {"gsub": r.choice([0, 0, 1, 2]), "gpos": r.choice([0, 1, 1, 2, 2, 3]), "kerx": r.choice([0, 0, 1]),
+         "kern": r.choice([0, 0, 1]), "gdef": r.choice([0, 1]), "gsub_map": {}}
+    if e["gsub"] == 2:
+        e["gsub_map"] = {g: r.range(1, NG - 1) for g in r.sample(list(range(1, NG)), r.range(1, 5))}
+    return e
+
+
+def env_token(e):
+    bits = [e["gsub"] != 0, e["gpos"] != 0, e["gpos"] == 2, e["kerx"] != 0, e["kern"] != 0, e["gdef"] != 0]
+    mp = ".".join(f"{a}>{b}" for a, b in sorted(e["gsub_map"].items())) or "-"
+    return "".join("1" if b else "0" for b in bits) + "/" + mp
+
+
+def env_name(e):
+    return "+".join(["morx"] + [k + (str(e[k]) if k in ("gsub", "gpos") else "") for k in ("gsub", "gpos", "kerx", "kern", "gdef")
+                                if e[k]])
+
+
+def env_font(r, morx, feat, e):
+    """the sfnt through tools/fontbuild.py (GSUB / GPOS / GDEF / kern serialised there), morx / feat / kerx verbatim"""
+    import fontbuild
+    rec = {"num_glyphs": NG, "cmap": "pua", "advances": [500 + 10 * g for g in range(NG)],
+           "tables": {"morx": morx}}
+    if feat is not None:
+        rec["tables"]["feat"] = feat
+    pairs = lambda: [(r.range(1, NG - 1), r.range(1, NG - 1), r.range(-90, 90)) for _ in range(r.range(1, 6))]
+    if e["gsub"] == 1:
+        rec["gsub"] = {"features": [], "lookups": []}
+    elif e["gsub"] == 2:
+        cov = sorted(e["gsub_map"])
+        rec["gsub"] = {"features": [{"tag": "ccmp", "lookups": [0]}],
+                       "lookups": [{"type": 1, "flag": 0, "subtables": [{"format": 2, "coverage": cov,
+                                                                          "subst": [e["gsub_map"][g] for g in cov]}]}]}
+    if e["gpos"] == 1:
+        rec["gpos"] = {"features": [], "lookups": []}
+    elif e["gpos"] == 2:
+        first = sorted(set(r.range(1, NG - 1) for _ in range(3)))
+        rec["gpos"] = {"features": [{"tag": "kern", "lookups": [0]}],
+                       "lookups": [{"type": 2, "flag": 0, "subtables": [{"format": 1, "coverage": first, "pairsets": [
+                           [(s, {"xAdvance": r.range(-80, 80)}, None) for s in sorted(set(r.range(1, NG - 1) for _ in range(3)))]
+                           for _ in first]}]}]}
+    elif e["gpos"] == 3:
+        cov = sorted(set(r.range(1, NG - 1) for _ in range(4)))
+        rec["gpos"] = {"features": [{"tag": "mark", "lookups": [0]}],
+                       "lookups": [{"type": 1, "flag": 0, "subtables": [{"format": 1, "coverage": cov,
+                                                                          "value": {"xPlacement": r.range(-50, 50), "xAdvance": r.range(-50, 50)}}]}]}
+    if e["kerx"]:
+        rec["tables"]["kerx"] = kerx_table(pairs())
+    if e["kern"]:
+        rec["kern"] = [{"pairs": pairs()}]
+    if e["gdef"]:
+        rec["gdef"] = {"classes": {g: r.choice([1, 1, 2, 3]) for g in r.sample(list(range(1, NG)), r.range(1, 8))}}
+    return fontbuild.build(rec)
+
+
+def deleting_subst(r):
+    """a substitution map in which some glyphs go to the deleted glyph"""
+    d = {g: r.below(NG) for g in r.sample(list(range(NG)), r.range(1, 6))}
+    for g in r.sample(list(range(1, NG)), r.range(1, 4)):
+        d[g] = DELETED
+    return d
+
+
+def deleting_chains(r, with_ins):
+    """well-formed chains (C17's generator) in which deletion is frequent: non-contextual and contextual lookups that
+    map to 0xFFFF, ligature subtables (which delete the components they consume)"""
+    kinds = (2, 2, 4, 4, 1, 0, 5) if with_ins else (2, 2, 4, 4, 1, 0)
+    chains = rand_chains(r, None, kinds, 3, wf=True)
+    for ch in chains:
+        for st in ch["subtables"]:
+            if st["kind"] == 4 and r.chance(2, 3):
+                st["lookup"] = identity_lookup(r, deleting_subst(r))
+            elif st["kind"] == 1 and r.chance(2, 3):
+                st["arrays"]["lookups"] = [identity_lookup(r, deleting_subst(r)) if r.chance(1, 2) else
+                                           build_lookup(deleting_subst(r), r.choice([2, 6]), NG, term=r.chance(1, 2))
+                                           for _ in st["arrays"]["lookups"]]
+                st["built"] = build_stx(r, 1, st["mach"], NG, st["arrays"])
+            if st["kind"] in (1, 2, 4) and r.chance(1, 2):
+                st["flags"] = 1          # switched on by the usual default flags
+                st["coverage"] |= 0x20   # all directions
+    return chains
+
+
+ENV_TAGS = [t for t in USER_TAGS if t != "kern"]     # `kern=0` changes who positions; not part of this stream's model
+
+
+def env_user_feats(r, cl):
+    fs = []
+    for _ in range(r.below(3)):
+        a = r.choice(cl); k = r.below(4)
+        if k == 0: s, e = 0, 0xFFFFFFFF
+        elif k == 1: s, e = a, a + r.range(1, 4)
+        elif k == 2: s, e = a, 0xFFFFFFFF
+        else: s, e = 0, a
+        fs.append(f"{tag_hex(r.choice(ENV_TAGS))}:{r.choice([0, 1, 1, 2])}:{s}:{e}")
+    return ",".join(fs) or "-"
+
+
+def env_clusters(r, n):
+    k = r.below(4)
+    if k == 0: return list(range(n))
+    c, out = r.below(4), []
+    for _ in range(n):
+        out.append(c)
+        c += r.range(1, 4) if k == 1 else (r.below(2) if k == 2 else r.choice([0, 1, 1, 2, 3]))
+    return out
+
+
+def env_cases(r, nfonts, per_font=3, nenv=3):
+    """[(shapeenv request, hook request, meta)]: every text on the bare morx font and on `nenv` environments"""
+    cases = []
+    for it in range(nfonts):
+        with_feat = r.chance(1, 3)
+        chains = deleting_chains(r, with_ins=(it % 4 == 0))
+        morx, tok = build_morx(r, chains, NG)
+        feat_rows = rand_feat_table(r) if with_feat else None
+        feat = build_feat(feat_rows) if feat_rows is not None else None
+        ftok = [NG, 1 if feat_rows is not None else 0]
+        if feat_rows is not None:
+            ftok += [len(feat_rows)]
+            for ty, ns, ex in feat_rows:
+                ftok += [ty, ns, 1 if ex else 0]
+        rec = " ".join(map(str, ftok + tok))
+        envs = [rand_env(r, base=True)] + [rand_env(r) for _ in range(nenv)]
+        fonts = [env_font(r, morx, feat, e).hex() for e in envs]
+        for _ in range(per_font):
+            n = r.range(1, 8)
+            pool = [r.range(1, NG - 1) for _ in range(r.range(1, 4))] if r.chance(1, 2) else list(range(1, NG))
+            gl = [r.choice(pool) for _ in range(n)]
+            cl = env_clusters(r, n)
+            d = r.choice(["l", "l", "r", "r", "t", "b"])
+            level = r.choice([0, 0, 1, 2])
+            fs = env_user_feats(r, cl) if with_feat else "-"
+            text = ",".join(f"{0xE000 + g - 1:x}:{c}" for g, c in zip(gl, cl))
+            # the substitute hook sees the buffer as morx does: bottom-to-top text has been reversed and is top-to-bottom
+            hg, hd = (list(zip(gl, cl))[::-1], "t") if d == "b" else (list(zip(gl, cl)), d)
+            hook = f"morx run {fonts[0]} R 0 I {hd} {level} - - {fs} " + ",".join(f"{g}:{c}" for g, c in hg)
+            group = len(cases)
+            for e, hexf in zip(envs, fonts):
+                cases.append((f"morx shapeenv {hexf} R {rec} I {env_token(e)} {d} {level} {fs} {text}",
+                              hook, {"env": e, "base": e is envs[0], "group": group,
+                                     "insertion": any(st["kind"] == 5 for ch in chains for st in ch["subtables"]), "dir": d, "level": level, "glyphs": gl, "clusters": cl,
+                                     "features": fs}))
+    return cases
+
+
+def canon_env(s):
+    """the advances after ` A ` are for the search oracle only (the model has no positions)"""
+    return canon(s.split(" A ")[0])
+
+
+def classify_env(ln, out):
+    t = ln.split(); i = t.index("I")
+    ks = ["env:" + t[i + 1].split("/")[0], "dir:" + t[i + 2], "level:" + t[i + 3]]
+    if out.startswith("ok"):
+        o = out.split()
+        ks.append("plan:" + o[3])
+    else:
+        ks.append(out[:16])
+    return ks
+
+
+def purge_lines(r, n):
+    lines = []
+    for _ in range(n):
+        k = r.below(11)
+        gs = []
+        mode = r.below(5)
+        c = r.below(5)
+        for _ in range(k):
+            g = DELETED if r.chance(1, 2) else r.below(NG)
+            gs.append(f"{g}:{c}")
+            if mode == 0: c += 1
+            elif mode == 1: c += r.below(3)
+            elif mode == 2: c = max(0, c - r.below(3))
+            elif mode == 3: c = r.below(6)
+            else: c += r.choice([0, 0, 1, 2])
+        lines.append(f"morx purge {r.choice([0, 0, 1, 2])} " + (",".join(gs) or "-"))
+    return lines
+
+
+def classify_purge(ln, out):
+    t = ln.split()
+    n = 0 if t[3] == "-" else len(t[3].split(","))
+    m = 0 if not out.startswith("ok") or out.split()[1] == "-" else len(out.split()[1].split(","))
+    return ["level:" + t[2], "deleted:%d" % min(n - m, 5), "kept:%d" % min(m, 5)]
+
+
+def pairs_of(field):
+    return [] if field == "-" else [tuple(int(v) for v in t.split(":")) for t in field.split(",")]
+
+
+def purge_search(ctx, shim, lines):
+    """oracle on the crate alone: hb_aat_layout_remove_deleted_glyphs keeps exactly the records whose glyph is not
+    0xFFFF, in order, and every cluster value that comes out went in; at the merging levels 0 / 1, for a string whose
+    clusters do not decrease: the clusters that come out do not decrease either, no record gets a larger cluster than
+    it had, and the smallest cluster value survives when anything does"""
+    outs = vlib.run_lines(shim, lines)
+    bad = nontriv = 0
+    worst = None
+    for ln, x in zip(lines, outs):
+        inp = pairs_of(ln.split()[3])
+        level = int(ln.split()[2])
+        if any(g == DELETED for g, _ in inp): nontriv += 1
+        got = pairs_of(x.split()[1]) if x.startswith("ok") else None
+        want = [g for g, _ in inp if g != DELETED]
+        why = None
+        if got is None or [g for g, _ in got] != want: why = f"expected the glyphs {want}"
+        elif not {c for _, c in got} <= {c for _, c in inp}: why = "a cluster value that was not in the input"
+        elif level != 2 and got and all(a[1] <= b[1] for a, b in zip(inp, inp[1:])):
+            kept = [c for g, c in inp if g != DELETED]
+            if any(a[1] > b[1] for a, b in zip(got, got[1:])): why = "clusters no longer monotone"
+            elif any(c > k for (_, c), k in zip(got, kept)): why = "a record got a larger cluster than it had"
+            elif min(c for _, c in got) != min(c for _, c in inp): why = "the smallest cluster value was lost"
+        if why:
+            bad += 1
+            if worst is None or len(ln) < len(worst[0]): worst = (ln, level, x, why, want)
+    if worst:
+        ln, level, x, why, want = worst
+        ctx.violation(f"hb_aat_layout_remove_deleted_glyphs on {ln.split()[3]} (level {level}) gives {x}: {why} ({bad} requests)",
+                      {"stage": "search", "stream": "morx-purge", "request": ln, "expected": want, "why": why,
+                       "observed": x[:300], "count": bad})
+    ctx.note_search("morx-purge", len(lines), nontriv, mismatches=bad,
+                    rule="glyph strings <= 10 (half of the records deleted glyphs; ascending / repeated / descending / random "
+                         "clusters) x 3 levels through the purge hook: the glyph ids that come out are exactly the non-deleted "
+                         "ones in order, no new cluster value; levels 0 / 1 on non-decreasing clusters: still non-decreasing, no "
+                         "record's cluster grows, the minimum survives; non-trivial = something was deleted")
+
+
+def env_search(ctx, shim, cases):
+    """oracles on the crate alone, over the same requests as the morx-shape-env correspondence.  Whether morx substitutes is
+    decided here from the request (horizontal text, or no GSUB table: harfbuzz#2124), not read from the crate's plan:
+    (1) no glyph 0xFFFF in the output of shape();
+    (2) if morx substitutes, the glyph ids of shape() are the glyph ids of hb_aat_layout_substitute (hook, on the bare morx
+        font) without the deleted glyphs, reversed for right-to-left text; if GSUB does (vertical text, GSUB present), they
+        are the input glyphs through the font's single substitution;
+    (3) the glyph ids do not depend on the environment (same substituting table);
+    (4) on the bare morx font (nothing positions) every horizontal advance is the hmtx advance of the glyph it belongs to."""
+    reqs = [c[0] for c in cases]
+    hooks = sorted({c[1] for c in cases})
+    a = vlib.run_lines(shim, reqs, timeout=300)
+    hb = dict(zip(hooks, vlib.run_lines(shim, hooks, timeout=300)))
+    total = nontriv = 0
+    dist = {}
+    found = {}
+    base = {}
+    for (ln, hk, m), x in zip(cases, a):
+        total += 1
+        name = env_name(m["env"])
+        y = hb[hk]
+        if not x.startswith("ok"):
+            if y.startswith("ok"):
+                found.setdefault("crash", []).append((len(m["glyphs"]), ln, m, x, y, None, hk))
+            continue
+        o = x.split()
+        got = pairs_of(o[1]); plan = o[3]
+        gids = [g for g, _ in got]
+        exp_morx = m["dir"] in "lr" or m["env"]["gsub"] == 0
+        if m["base"]:
+            base[m["group"]] = gids
+        dist["plan:" + plan] = dist.get("plan:" + plan, 0) + 1
+        want = None
+        if exp_morx and y.startswith("ok"):
+            hooked = gids_of(y.split()[3])
+            want = [g for g in hooked if g != DELETED]
+            if m["dir"] == "r": want = want[::-1]
+            if DELETED in hooked:
+                nontriv += 1
+                dist["deleted-in:" + name] = dist.get("deleted-in:" + name, 0) + 1
+        elif not exp_morx:
+            want = [m["env"]["gsub_map"].get(g, g) for g in m["glyphs"]]
+            if m["dir"] == "b": want = want[::-1]
+        key = None
+        if DELETED in gids: key = "deleted-glyph-in-output"
+        elif want is not None and gids != want: key = "differs-from-substitute-hook" if exp_morx else "differs-from-gsub"
+        elif exp_morx and m["group"] in base and base[m["group"]] != gids: key = "depends-on-environment"
+        elif m["base"] and m["dir"] in "lr" and len(o) > 5 and o[5] != "-" and \
+                [int(v) for v in o[5].split(",")] != [500 + 10 * g if g < NG else None for g in gids]:
+            key = "advance-not-of-its-glyph"
+        if key:
+            found.setdefault(key, []).append((len(m["glyphs"]) * 100 + len(name), ln, m, x, y, want, hk))
+    for key, lst in sorted(found.items()):
+        lst.sort(key=lambda t: t[0])
+        _, ln, m, x, y, want, hk = lst[0]
+        envs = sorted({env_name(t[2]["env"]) for t in lst})
+        ctx.violation(f"shape() on a font with {env_name(m['env'])}: {key} — glyphs {m['glyphs']} clusters {m['clusters']} "
+                      f"dir {m['dir']} level {m['level']} features {m['features']} -> {x[:200]}"
+                      + (f", expected the glyph ids {want}" if want is not None else "")
+                      + f" ({len(lst)} requests; environments: {', '.join(envs[:8])})",
+                      {"stage": "search", "stream": "morx-shape-env", "class": key, "environment": env_name(m["env"]),
+                       "request": ln, "hook_request": hk,
+                       "glyphs": m["glyphs"], "clusters": m["clusters"],
+                       "dir": m["dir"], "level": m["level"], "features": m["features"], "expected": want,
+                       "observed": x[:400], "substitute_hook": y[:400], "count": len(lst), "environments": envs})
+    ctx.note_search("morx-shape-env", total, nontriv, distribution=dist,
+                    violations_by_class={k: len(v) for k, v in found.items()},
+                    rule="generated well-formed morx tables in which deletion is frequent (non-contextual / contextual lookups "
+                         "mapping to 0xFFFF, ligatures, plus rearrangement and - every 4th font - insertion), each text on the "
+                         "bare morx font and on 3 environments drawn from GSUB (none / no features / ccmp single substitution) x "
+                         "GPOS (none / no features / kern pairs / mark-feature adjustment) x kerx x kern x GDEF; strings <= 8 over "
+                         "the PUA alphabet, 4 directions, 3 levels, ascending / gapped / repeated clusters, 0-2 user features on "
+                         "fonts with feat; oracles: no 0xFFFF in the output, glyph ids = substitute hook minus deleted glyphs "
+                         "(horizontal text or no GSUB; else = input through the GSUB substitution), glyph ids independent of the "
+                         "environment, on the bare font every advance is the hmtx advance of its glyph; non-trivial = the hook "
+                         "result contains a deleted glyph")
+
 def run(ctx):
     ctx.assumptions += [
         "theorems are about the Lean model RbModel/Morx.lean; it is tied to the crate by the correspondence "
@@ -972,7 +1299,17 @@ def run(ctx):
     # 3. chain-flag compilation (add_feature + compile + compile_flags)
     ctx.correspond("morx-compile", lines=compile_lines(ctx.rng("compile"), ctx.budget(1500, 80000)),
                    classify=classify_compile, canon=canon)
+    # 4. the purge of deleted glyphs (hook) and shape() on fonts with morx next to GSUB / GPOS / kerx / kern / GDEF
+    pl = purge_lines(ctx.rng("purge"), ctx.budget(4000, 150000))
+    ctx.correspond("morx-purge", lines=pl, classify=classify_purge, canon=canon)
+    envc = env_cases(ctx.rng("shape-env"), ctx.budget(220, 6000))
+    # (fonts with an insertion subtable go to the search only: with the budget of shape() - max_ops >= 16384, which a request
+    # cannot lower - the model's insertion loop takes minutes on tables that spend the budget, see run_lines)
+    ctx.correspond("morx-shape-env", lines=[c[0] for c in envc if not c[2]["insertion"]], classify=classify_env,
+                   canon=canon_env, timeout=300)
     # search
+    purge_search(ctx, shim, pl)
+    env_search(ctx, shim, envc)
     seed_search(ctx, shim, model)
     verb_search(ctx, shim, model, ctx.budget(8, 10))
     spec_search(ctx, shim, model, ctx.rng("spec"), ctx.budget(350, 20000))
@@ -1010,6 +1347,18 @@ def replay(ctx, rp):
         b = vlib.run_lines(model, [rp["request"].replace("morx rearr", "morx specverb", 1)], nproc=1)[0]
         print("crate:", a); print("spec :", b)
         return 0 if a.startswith("ok") and gids_of(a.split()[3]) == gids_of(b.split()[1]) else 1
+    if st == "morx-purge":
+        a = vlib.run_lines(shim, [rp["request"]], nproc=1)[0]
+        print("crate:", a[:300], "expected glyph ids", rp.get("expected"))
+        return 0 if a.startswith("ok") and [g for g, _ in pairs_of(a.split()[1])] == rp.get("expected") else 1
+    if st == "morx-shape-env":
+        a = vlib.run_lines(shim, [rp["request"]], nproc=1)[0]
+        print("environment:", rp.get("environment"), "glyphs", rp.get("glyphs"), "clusters", rp.get("clusters"),
+              "dir", rp.get("dir"), "level", rp.get("level"), "features", rp.get("features"))
+        print("shape():", a[:300], "expected glyph ids", rp.get("expected"))
+        if not a.startswith("ok"): return 1
+        g = [x for x, _ in pairs_of(a.split()[1])]
+        return 0 if DELETED not in g and (rp.get("expected") is None or g == rp["expected"]) else 1
     if st in ("morx-d17", "morx-shape-vs-hook"):
         a = vlib.run_lines(shim, [rp["request"]], nproc=1)[0]
         print("shape():", a[:300], "expected", rp.get("expected"))
